@@ -16,6 +16,7 @@ package erpc
 
 import (
 	"context"
+	"math"
 	"reflect"
 	"sync"
 	"time"
@@ -297,7 +298,9 @@ func (c *handlerCtx) SetBodyCodec(bodyCodec byte) {
 
 // AddXferPipe appends transfer filter pipe of reply message.
 func (c *handlerCtx) AddXferPipe(filterID ...byte) {
-	c.output.XferPipe().Append(filterID...)
+	if err := c.output.XferPipe().Append(filterID...); err != nil {
+		Warnf("AddXferPipe(%v): %s", filterID, err.Error())
+	}
 }
 
 // IP returns the remote addr.
@@ -501,6 +504,12 @@ func (c *handlerCtx) handleCall() {
 	c.output.SetMtype(TypeReply)
 	c.output.SetSeq(c.input.Seq())
 	c.output.SetServiceMethod(c.input.ServiceMethod())
+	// The reply goes through the transfer pipe of the call, which takes precedence
+	// over the filters added to the reply before: drop those if both do not fit.
+	if xferPipe := c.output.XferPipe(); xferPipe.Len()+c.input.XferPipe().Len() > math.MaxUint8 {
+		Warnf("the transfer pipe of reply is too long, reset it to the transfer pipe of call")
+		xferPipe.Reset()
+	}
 	c.output.XferPipe().AppendFrom(c.input.XferPipe())
 
 	if age := c.sess.ContextAge(); age > 0 {
